@@ -355,7 +355,7 @@ def parse_natlist(v):
     return [int(x.replace("%nat", "").replace("%Z", "").replace("%N", "").strip(" ()")) for x in body.split(";")]
 
 
-HEADER = """From Coq Require Import ZArith List Bool QArith.
+HEADER = """From Coq Require Import ZArith List Bool QArith Qabs.
 Import ListNotations.
 Open Scope Z_scope.
 """
